@@ -219,3 +219,36 @@ theorem wire_hyps (c : Codec) (salt : Nat → String) (decodeClaims : String →
     exact discString_no_tilde c _ _ _
 
 end Impl
+
+namespace Impl
+
+/-- a compact JWS holds no `~`: its three segments are base64url, its separators are `.` -/
+theorem compact_no_tilde (c : Codec) (header payload : J) (sig : List UInt8) :
+    '~' ∉ (c.compact header payload sig).toList := by
+  simp only [Codec.compact, String.toList_ofList, List.mem_append, List.mem_cons]
+  intro h
+  rcases h with h | h | h | h | h
+  · exact B64.enc_no_tilde _ h
+  · exact absurd h (by decide)
+  · exact B64.enc_no_tilde _ h
+  · exact absurd h (by decide)
+  · exact B64.enc_no_tilde _ h
+
+/-- `get_jwt_part` finds the three segments of a compact JWS, and `decode_claims_no_verification`
+reads the payload back from the middle one -/
+theorem getJwtPart_compact (c : Codec) (header payload : J) (sig : List UInt8) :
+    splitOn '.' (c.compact header payload sig).toList =
+      [B64.enc (c.render header), B64.enc (c.render payload), B64.enc sig] ∧
+    getJwtPart (c.compact header payload sig).toList .claims = .ok (B64.enc (c.render payload)) := by
+  have hs : splitOn '.' (c.compact header payload sig).toList =
+      [B64.enc (c.render header), B64.enc (c.render payload), B64.enc sig] := by
+    simp only [Codec.compact, String.toList_ofList]
+    rw [splitOn_prefix '.' _ _ (B64.enc_no_dot _), splitOn_prefix '.' _ _ (B64.enc_no_dot _),
+      splitOn_of_not_mem '.' _ (B64.enc_no_dot _)]
+  exact ⟨hs, by simp [getJwtPart, hs]⟩
+
+theorem decodeClaims_compact (c : Codec) (hc : ∀ j, c.parse (c.render j) = some j) (payload : J) :
+    c.decodeClaims (strOf (B64.enc (c.render payload))) = some payload := by
+  simp [Codec.decodeClaims, strOf, String.toList_ofList, B64.dec_enc, hc]
+
+end Impl
